@@ -1084,7 +1084,7 @@ func (w *World) errorEdgesT(fn *ssa.Function, subst func(string) string, depth i
 										x = replaceIdent(x, p.Name(), render(hc.Call.Args[i]))
 									}
 								}
-								return subst(x)
+								return subst(renormCmp(x))
 							}
 							t := top
 							if t == nil {
